@@ -67,7 +67,7 @@ class ExprMixin(object):
 
     # ---------------------------------------------------------------- dispatch
     def ev(self, n, st):
-        if isinstance(n, (ast.Call, ast.Attribute, ast.Subscript, ast.Name)) and self.env_keys:
+        if isinstance(n, (ast.Call, ast.Attribute, ast.Subscript, ast.Name, ast.IfExp)) and self.env_keys:
             key = self.unparse(n)
             if key in self.env_keys:
                 self.env_used.add(key)
@@ -187,6 +187,23 @@ class ExprMixin(object):
         return st
 
     def list_concat(self, x, y):
+        if isinstance(x, ListV) or isinstance(y, ListV):
+            def as_fl(v):
+                if isinstance(v, ListV):
+                    return v
+                if isinstance(v, PyListV):
+                    items = v.items
+
+                    def get(i, items=items):
+                        if not items:
+                            return IntV(0)
+                        return mk_union([(i == k, it) for k, it in enumerate(items[:-1])] + [(z3.And(*[i != k for k in range(len(items) - 1)]) if len(items) > 1 else z3.BoolVal(True), items[-1])])
+                    return ListV(z3.IntVal(len(items)), get, tag='flist')
+                if isinstance(v, SeqV):
+                    return ListV(z3.Length(v.t), lambda i: IntV(v.t[i]), tag='flist')
+                raise Unsupported('list + on %r' % (v,))
+            a, b = as_fl(x), as_fl(y)
+            return ListV(a.n + b.n, lambda i: mk_union([(i < a.n, a.get(i)), (z3.Not(i < a.n), b.get(i - a.n))]), tag='flist')
         if isinstance(x, PyListV) and isinstance(y, PyListV):
             return PyListV(x.items + y.items)
         if isinstance(x, SeqV) and isinstance(y, SeqV):
@@ -655,7 +672,20 @@ class ExprMixin(object):
             yield s2, rv
 
     def comp_map_list(self, n, var, lst, st, as_list):
-        raise Unsupported('comprehension over an abstract list at line %d' % n.lineno)
+        """[f(o) for o in xs] over a functional list: the element-wise image (f a pure int expression)"""
+        j = fresh('cj')
+        s = st.clone()
+        s.loc = dict(s.loc)
+        s.loc[var] = lst.get(j)
+        outs = list(self.ev(n.elt, s))
+        if len(outs) != 1 or is_exc(outs[0][1]) or not is_intlike(outs[0][1]):
+            raise Unsupported('comprehension element is not a pure integer expression at line %d' % n.lineno)
+        body = to_int(outs[0][1])
+        rv = ListV(lst.n, lambda i: IntV(z3.substitute(body, (j, i if z3.is_expr(i) else z3.IntVal(i)))), tag='flist')
+        if as_list:
+            yield self.new_list(st, rv)
+        else:
+            yield st, rv
 
 
 class ModuleHandle(object):
